@@ -1,14 +1,15 @@
 #!/bin/bash
 # usage: tools/seed_run.sh <seed name under /verif/seeded> <property> [quick|thorough]
-# Applies the seeded change to /repo, runs the property's check, and always reverts /repo.
+# Applies the seeded change to the repository (VERIF_REPO, default /repo), runs the property's check, and always reverts.
 set -u
 S=/verif/seeded/$1; P=$2; T=${3:-quick}
-cd /repo || exit 2
-if ! git diff --quiet; then echo "/repo has uncommitted changes; refusing"; exit 2; fi
+R=${VERIF_REPO:-/repo}
+cd $R || exit 2
+if ! git diff --quiet; then echo "$R has uncommitted changes; refusing"; exit 2; fi
 git apply $S/patch.diff || { echo "patch does not apply"; exit 3; }
 cd /verif
 timeout ${SEED_TIMEOUT:-3400} ./check $P $T > /tmp/seedrun-$1-$P.log 2>&1; RC=$?
-git -C /repo checkout -- .
+git -C $R checkout -- .
 echo "seed=$1 property=$P tier=$T exit=$RC"
 grep -c '^VIOLATION' /tmp/seedrun-$1-$P.log
 grep -m3 -A2 '^VIOLATION' /tmp/seedrun-$1-$P.log | cut -c1-400
